@@ -224,6 +224,7 @@ structure Stats where
   badlines : Nat := 0
   maxDepthSeen : Nat := 0
   nontrivial : Nat := 0
+  skipWhy : List (String × Nat) := []
 
 def field (obs : String) (key : String) : String :=
   match (obs.splitOn " ").find? (·.startsWith (key ++ "=")) with
@@ -267,8 +268,11 @@ def step (stt : Stats) (lineNo : Nat) (line : String) : IO Stats := do
         stt := { stt with maxDepthSeen := max stt.maxDepthSeen r.2.maxDepth }
         match expect r with
         | .skip why =>
-          return if why == "fuel" then { stt with skippedFuel := stt.skippedFuel + 1 }
-                 else { stt with skippedUnmodelled := stt.skippedUnmodelled + 1 }
+          let bump := match stt.skipWhy.find? (·.1 == why) with
+            | some _ => stt.skipWhy.map fun p => if p.1 == why then (p.1, p.2 + 1) else p
+            | none => (why, 1) :: stt.skipWhy
+          return if why == "fuel" then { stt with skippedFuel := stt.skippedFuel + 1, skipWhy := bump }
+                 else { stt with skippedUnmodelled := stt.skippedUnmodelled + 1, skipWhy := bump }
         | .exact e =>
           stt := { stt with compared := stt.compared + 1,
                             values := stt.values + (if e.startsWith "v:" then 1 else 0),
@@ -304,4 +308,6 @@ end C15Driver
 def main : IO Unit := do
   let stdin ← IO.getStdin
   let s ← C15Driver.loop stdin {} 1
+  for (w, n) in s.skipWhy do
+    IO.println s!"SKIPPED n={n} why={w}"
   IO.println s!"STATS cases={s.cases} programs={s.programs} compared={s.compared} hostile={s.hostile} skipped_fuel={s.skippedFuel} skipped_unmodelled={s.skippedUnmodelled} skipped_timeout={s.skippedTimeout} values={s.values} script_errors={s.scriptErrors} stack_errors={s.stackErrors} crashes={s.crashes} hostile_syntax={s.hostileSyntax} hostile_ok={s.hostileOk} mismatches={s.mismatches} specfails={s.specfails} badlines={s.badlines} max_depth={s.maxDepthSeen} nontrivial={s.nontrivial}"
